@@ -2,7 +2,7 @@
 
 from operator import attrgetter
 
-from y0.dsl import Distribution, Expression, Fraction, Probability
+from y0.dsl import Distribution, Expression, Fraction, One, Probability
 from y0.mutate.utils import Applier
 
 __all__ = ["contract", "recursive_contract"]
@@ -30,6 +30,8 @@ def contract(expression: Expression) -> Expression:
     ):
         return expression
     children = set(expression.numerator.children).difference(expression.denominator.children)
+    if not children:  # P(A, B) / P(A, B)
+        return One()
     parents = set(expression.numerator.children).intersection(expression.denominator.children)
     return expression.numerator._new(
         Distribution(
